@@ -6,36 +6,23 @@ Import ListNotations.
 Open Scope Z_scope.
 
 (* JWT: for every Authorization header, token shape, claims, clock and key set, the request is forwarded iff the
-   header is "Bearer <token>", the token parses, its exp/iat/nbf claims hold at `now`, and some configured key of
-   the key type required by the TOKEN's algorithm (HS* - oct, RS256 - RSA; none/unknown - never) verifies it. *)
+   header is "Bearer <token>", the token parses, its exp/iat/nbf claims hold at `now`, and some configured key
+   whose declared algorithm (if any) is the token's algorithm and whose key type is the one that algorithm needs
+   (HS* - oct, RS256 - RSA; none/unknown - never) verifies the signature. *)
 Theorem C51_jwt_iff_valid : forall auth mal alg c now keys,
   jwt_accept auth mal alg c now keys = true <->
   (exists tok, get_token auth = Some tok) /\ mal = false /\ claims_ok c now = true /\
-  exists k, In k keys /\ alg_compat alg (k_kty k) = true /\ k_sig_ok k = true.
+  exists k, In k keys /\ (k_alg k = 0 \/ k_alg k = alg) /\ alg_compat alg (k_kty k) = true /\ k_sig_ok k = true.
 Proof. exact jwt_iff_valid. Qed.
 Print Assumptions C51_jwt_iff_valid.
 
-(* The statement's requirement "signed with a configured key USING THAT KEY'S ALGORITHM" does not hold:
-   a token with alg HS256 whose HMAC verifies under an oct key declared HS512 is accepted (known finding 1). *)
-Theorem C51_jwt_alg_is_keys_alg_refuted :
-  exists auth alg c now keys,
-    jwt_accept auth false alg c now keys = true /\ jwt_valid auth false alg c now keys = false.
-Proof. exact jwt_alg_refuted. Qed.
-Print Assumptions C51_jwt_alg_is_keys_alg_refuted.
-
-(* It holds for every key set in which no key declares an algorithm different from the token's: there the
-   module accepts exactly the requests valid in the statement's sense (jwt_valid in run/RunC51.v). *)
-Theorem C51_jwt_alg_is_keys_alg_partial : forall auth mal alg c now keys,
-  (forall k, In k keys -> k_alg k = 0 \/ k_alg k = alg) ->
+(* "signed with a configured key using that key's algorithm": after the repair of provideKey (/repo commit dccedcf;
+   before it an HS256 token was accepted under an oct key declared HS512) the module's decision coincides, for all
+   inputs, with the statement's validity predicate jwt_valid of run/RunC51.v. *)
+Theorem C51_jwt_alg_is_keys_alg : forall auth mal alg c now keys,
   jwt_valid auth mal alg c now keys = jwt_accept auth mal alg c now keys.
-Proof. exact jwt_alg_partial. Qed.
-Print Assumptions C51_jwt_alg_is_keys_alg_partial.
-
-(* and in every case a valid request is forwarded (the defect only ever admits too much) *)
-Theorem C51_jwt_valid_accepted : forall auth mal alg c now keys,
-  jwt_valid auth mal alg c now keys = true -> jwt_accept auth mal alg c now keys = true.
-Proof. exact jwt_valid_accepted. Qed.
-Print Assumptions C51_jwt_valid_accepted.
+Proof. exact jwt_accept_is_valid. Qed.
+Print Assumptions C51_jwt_alg_is_keys_alg.
 
 (* Secure link: for all query values, digests and clocks, Checker.Check succeeds iff (no expiry key is configured
    or the expires value is a decimal int64 not before now) and the checksum value is non-empty and equals the
@@ -62,6 +49,28 @@ Theorem C51_block_refuses : forall g p,
                       match decisive p with Some c => c =? 1 | None => false end end.
 Proof. exact block_refuses. Qed.
 Print Assumptions C51_block_refuses.
+
+(* The executable property predicate evaluated on the implementation holds of the model on every well-shaped
+   input of each of the four operations (basic: user names unique, as in a Go map). *)
+Theorem C51_prop_of_model_jwt : forall auth mal alg cl now ks extra c keys,
+  dec_claims cl = Some c -> dec_keys ks = Some keys ->
+  let i := VL [VZ 2; VB auth; VZ mal; VZ alg; cl; VZ now; ks; extra] in prop_C51 i (run_C51 i) = true.
+Proof. exact prop_of_model_jwt. Qed.
+Print Assumptions C51_prop_of_model_jwt.
+Theorem C51_prop_of_model_link : forall he expires checksum digest now e1 e2 e3,
+  let i := VL [VZ 3; VZ he; VB expires; VB checksum; VB digest; VZ now; e1; e2; e3] in prop_C51 i (run_C51 i) = true.
+Proof. exact prop_of_model_link. Qed.
+Print Assumptions C51_prop_of_model_link.
+Theorem C51_prop_of_model_basic : forall auth dok dec us users,
+  dec_users us = Some users ->
+  let i := VL [VZ 1; VB auth; VZ dok; VB dec; us] in prop_C51 i (run_C51 i) = true.
+Proof. exact prop_of_model_basic. Qed.
+Print Assumptions C51_prop_of_model_basic.
+Theorem C51_prop_of_model_block : forall inT hg g hp p e1 e2 g' p',
+  dec_rules hg g = Some g' -> dec_rules hp p = Some p' ->
+  let i := VL [VZ 4; VZ inT; VZ hg; g; VZ hp; p; e1; e2] in prop_C51 i (run_C51 i) = true.
+Proof. exact prop_of_model_block. Qed.
+Print Assumptions C51_prop_of_model_block.
 
 (* Non-vacuity: an expired token is rejected although its signature verifies; a link whose checksum is a
    proper prefix of the right one is rejected (code 4). *)
